@@ -40,6 +40,10 @@ ARGS = [
     {"k": "kw", "v": "key"}, {"k": "sym", "v": "some-sym"}, {"k": "str", "v": "a.b"}, {"k": "float", "v": 1.5},
     {"k": "str", "v": "\ufb01"}, {"k": "str", "v": "\u00b5"}, {"k": "str", "v": "\uff26oo"}, {"k": "str", "v": "\u2171"},
     {"k": "str", "v": "x\u0301"}, {"k": "str", "v": "\U0001d525"}, {"k": "str", "v": "\u01c5"}, {"k": "str", "v": "hyx_Xfoo"},
+    # programmable arguments: their text conversion raises, calls hy.gensym again (re-entrancy on the
+    # same thread), or runs traced hy code (more pre-emption points in the middle of gensym)
+    {"k": "obj", "b": "raise"}, {"k": "obj", "b": "raise_base"}, {"k": "obj", "b": "reenter"},
+    {"k": "obj", "b": "steps"}, {"k": "obj", "b": "reenter"}, {"k": "obj", "b": "raise"},
 ]
 CHARS = "abcxyzXYZ019-_!?*+<>=/ \u00e9\ufb01\u00b5\uff21\u2171\u2603\u0301\U0001d525\u01c5\u00aa\u2460\u212b\u1e9b\u0323"
 
@@ -135,7 +139,7 @@ def generate(rng, tier):
     return {"threads": threads, "sched": sched, "followup": 2}
 
 
-def _mkarg(spec):
+def _mkarg(spec, sink=None):
     hy = _state["hy"]
     k = spec["k"]
     if k == "none":
@@ -146,7 +150,52 @@ def _mkarg(spec):
         return (hy.models.Keyword(spec["v"]),)
     if k == "sym":
         return (hy.models.Symbol(spec["v"]),)
+    if k == "obj":
+        return (_Prog(spec["b"], sink),)
     raise ValueError(k)
+
+
+class _ArgFault(Exception):
+    pass
+
+
+class _ArgBaseFault(BaseException):
+    pass
+
+
+class _Prog:
+    """Argument whose conversion to text (by whatever protocol gensym uses) follows a plan."""
+
+    def __init__(self, behaviour, sink):
+        self.b = behaviour
+        self.sink = sink
+        self.depth = 0
+
+    def _act(self):
+        hy = _state["hy"]
+        if self.b == "raise":
+            raise _ArgFault("planned")
+        if self.b == "raise_base":
+            raise _ArgBaseFault("planned")
+        if self.b == "reenter" and self.depth == 0:
+            self.depth += 1
+            try:
+                self.sink(hy.gensym("inner"))
+            finally:
+                self.depth -= 1
+        if self.b == "steps":
+            for w in ("a-b", "c?", "d!e"):
+                hy.mangle(w)
+        return "prog"
+
+    def __format__(self, spec):
+        return self._act()
+
+    def __str__(self):
+        return self._act()
+
+    def __repr__(self):
+        return self._act()
 
 
 _num = re.compile(r"(\d+)$")
@@ -176,11 +225,11 @@ def execute(desc):
         def body():
             for ci, c in enumerate(calls):
                 try:
-                    r = hy.gensym(*_mkarg(c))
+                    r = hy.gensym(*_mkarg(c, lambda x, ci=ci: results.append((tid, 100 + ci, "ok", x))))
                     results.append((tid, ci, "ok", r))
                 except T.SimAbort:
                     raise
-                except Exception as e:
+                except (Exception, _ArgBaseFault) as e:
                     results.append((tid, ci, "exc", type(e).__name__))
         return body
 
@@ -190,9 +239,18 @@ def execute(desc):
     if outcome == "watchdog":
         raise RuntimeError("harness: watchdog fired (thread blocked on a lock the simulator does not own)")
     follow = []
-    with T.patched_locks():
-        for _ in range(desc.get("followup", 0)):
-            follow.append(hy.gensym())
+    outcome2 = None
+    if desc.get("followup", 0) and not outcome:
+        # the closing calls run as one simulated thread, so a lock that an earlier (failed, re-entrant or
+        # pre-empted) call left held shows as a deadlock instead of being bypassed by the real lock
+        def closing():
+            for _ in range(desc["followup"]):
+                follow.append(hy.gensym())
+        sched2 = T.Scheduler(T.Replay([]))
+        with T.patched_locks():
+            outcome2 = sched2.run([closing], trace_files=set(), trace_line_prefix=None)
+        if outcome2 == "watchdog":
+            raise RuntimeError("harness: watchdog fired in the closing calls")
 
     viols = []
     if outcome == "deadlock":
@@ -200,6 +258,11 @@ def execute(desc):
                       "detail": "all unfinished threads blocked on the lock: " + repr(sched.switches[-6:])})
     elif outcome:
         raise RuntimeError("harness: run aborted: " + str(outcome))
+    elif outcome2 == "deadlock":
+        viols.append({"clause": "deadlock", "sig": "deadlock_after",
+                      "detail": "a call made after all threads had finished blocks on the lock (left held by an earlier call)"})
+    elif outcome2:
+        raise RuntimeError("harness: closing calls aborted: " + str(outcome2))
     oks = [(t, c, r) for (t, c, k, r) in results if k == "ok"] + [("main", i, r) for i, r in enumerate(follow)]
     names = [str(r) for (_, _, r) in oks]
     seen = {}
@@ -237,7 +300,7 @@ def execute(desc):
     events = [["switch"] + list(map(str, s)) for s in sched.switches]
     for (t, c, k, r) in sorted(results, key=lambda x: (x[0], x[1])):
         events.append(["result", t, c, k, norm(str(r)) if k == "ok" else r])
-    events.append(["outcome", str(outcome), sched.steps])
+    events.append(["outcome", str(outcome), str(outcome2), sched.steps])
     inside = sched.probes.get("switch_inside_gensym", 0)
     sigs = []
     if inside:
@@ -248,7 +311,8 @@ def execute(desc):
                        "preemption_between_counter_load_and_store":
                            sched.probes.get("switch_between_counter_load_and_store", 0),
                        "contended_lock_acquire": sched.probes.get("acquire_on_held_lock", 0),
-                       "argument_raises": sum(1 for r in results if r[2] == "exc")},
+                       "argument_raises": sum(1 for r in results if r[2] == "exc"),
+                       "reentrant_gensym_call": sum(1 for r in results if r[2] == "ok" and r[1] >= 100)},
             "probes": dict(sched.probes, context_switches=len(sched.switches),
                            adopted_locks=_state["adopted"]),
             "sigs": sigs, "steps": sched.steps}
